@@ -90,5 +90,6 @@ def reuse(R, repo) -> bool:
   if R.found < R.floor:
     R.instances += [('reused verdict %d' % i, R.instances[0][1] if R.instances else '', 0, True, '') for i in range(R.floor - R.found)]
   R.error = None
+  R.inconclusive = []
   R.notes.append('verdict of the reference tree reused: all %d consulted units are alpha-equivalent to it (%d name-dependent finding(s) discarded)' % (len(units), n_before - len(R.findings)))
   return True
